@@ -637,6 +637,12 @@ def run(chk):
         if mode is not None:
             la = lb = None
         cases.append(("gemmx", (M, N, K), rnd.random() < 0.5, (la, lb, None), mode))
+    # an innermost run of exactly one bank (8 bytes) whose elements are not adjacent: K = 4 with every second byte
+    # (refused or right)
+    cases.append(("gemmx", (8, 8, 4), False, ("strided<[8, 2]>", None, None), None))
+    cases.append(("gemmx", (8, 8, 4), False, ("strided<[8, 2]>", "strided<[2, 8]>", None), None))
+    cases.append(("gemmx", (16, 8, 4), False, ("strided<[8, 2]>", "strided<[2, 8]>", None), None))
+    cases.append(("gemmx", (8, 8, 2), False, ("strided<[8, 4]>", None, None), None))
     for n, pat, nb in ((16, "d0 mod 8", 8), (16, "d0 mod 4 + 2", 6), (64, "d0 floordiv 2", 32), (16, "d0 ceildiv 2", 9)):
         cases.append(("alu_nl", n, pat, nb))
     # operands that are tiles (subviews with run-time offsets) of larger tiled buffers: the stream's base pointer is the
